@@ -26,8 +26,9 @@ const rule = "expressions from a grammar (int / float / string literals, + - * /
 // ---- configuration --------------------------------------------------------------------------------
 
 type cfgT struct {
-	Nums map[string]any    // n0..n3: int or float
-	Strs map[string]string // s0..s2
+	Nums  map[string]any    // n0..n3: int or float
+	Strs  map[string]string // s0..s2
+	Which string            // "", "a" or "b": selects c18.sel.<which>
 }
 
 func genCfg(t *rapid.T) cfgT {
@@ -41,6 +42,7 @@ func genCfg(t *rapid.T) cfgT {
 			c.Nums[fmt.Sprintf("n%d", i)] = rapid.IntRange(-20, 20).Draw(t, "ni")
 		}
 	}
+	c.Which = rapid.SampledFrom([]string{"", "a", "b"}).Draw(t, "which")
 	for i := 0; i < 3; i++ {
 		if rapid.IntRange(0, 3).Draw(t, "sk") > 0 {
 			c.Strs[fmt.Sprintf("s%d", i)] = rapid.StringMatching(`[a-z]{1,5}( [a-z]{1,3})?`).Draw(t, "sv")
@@ -57,6 +59,10 @@ func (c cfgT) yaml() []byte {
 	for k, v := range c.Strs {
 		m[k] = v
 	}
+	m["sel"] = map[string]any{"a": 3, "b": 4}
+	if c.Which != "" {
+		m["which"] = c.Which
+	}
 	b, _ := yaml.Marshal(map[string]any{"c18": m, "pad": 1})
 	return b
 }
@@ -65,6 +71,24 @@ var phRe = regexp.MustCompile(`\$\{[^{}]*\}`)
 
 // substitute: the reference placeholder stage (no nesting needed here).
 func (c cfgT) substitute(s string) string {
+	for i := 0; i < 10 && phRe.MatchString(s); i++ {
+		s = c.substituteOnce(s)
+	}
+	// nested expressions: innermost first, each replaced by its value
+	inner := regexp.MustCompile(`#\{[^{}]*\}`)
+	for i := 0; i < 10 && inner.MatchString(s); i++ {
+		s = inner.ReplaceAllStringFunc(s, func(e string) string {
+			v, err := expr.Eval(e[2:len(e)-1], nil)
+			if err != nil {
+				return "(1/0)"
+			}
+			return fmtAny(v)
+		})
+	}
+	return s
+}
+
+func (c cfgT) substituteOnce(s string) string {
 	return phRe.ReplaceAllStringFunc(s, func(ph string) string {
 		body := ph[2 : len(ph)-1]
 		key, def, _ := strings.Cut(body, ":")
@@ -74,6 +98,16 @@ func (c cfgT) substitute(s string) string {
 		}
 		if v, ok := c.Strs[k]; ok {
 			return v
+		}
+		switch k {
+		case "which":
+			if c.Which != "" {
+				return c.Which
+			}
+		case "sel.a":
+			return "3"
+		case "sel.b":
+			return "4"
 		}
 		return def
 	})
@@ -88,7 +122,7 @@ type gen struct {
 }
 
 func (g *gen) num() string {
-	switch rapid.IntRange(0, 5).Draw(g.t, "numkind") {
+	switch rapid.IntRange(0, 6).Draw(g.t, "numkind") {
 	case 0:
 		return strconv.Itoa(rapid.OneOf(rapid.IntRange(0, 30), rapid.SampledFrom([]int{1000000, 2000000, 123456789})).Draw(g.t, "ilit"))
 	case 1:
@@ -106,6 +140,14 @@ func (g *gen) num() string {
 		return "3"
 	case 4:
 		return "(" + g.arith(1) + ")"
+	case 5:
+		g.usesPh = true
+		if rapid.Bool().Draw(g.t, "nestedexpr") {
+			// an expression inside the expression (innermost first)
+			return "#{" + strconv.Itoa(rapid.IntRange(1, 9).Draw(g.t, "ne1")) + "+" + strconv.Itoa(rapid.IntRange(1, 9).Draw(g.t, "ne2")) + "}"
+		}
+		// a placeholder whose key is built from another placeholder
+		return "${c18.sel.${c18.which:a}}"
 	}
 	return strconv.Itoa(rapid.IntRange(1, 9).Draw(g.t, "ilit2"))
 }
@@ -514,4 +556,58 @@ func TestValidateMulti(t *testing.T) {
 		}
 		kit.Rec.Case(desc, true, "multi-field")
 	})
+}
+
+
+// TestValidateUnboundPointer: an optional pointer field that stays nil is validated like any other value:
+// start-up fails exactly when nil violates the constraints (required, min, eq ...), not otherwise.
+func TestValidateUnboundPointer(t *testing.T) {
+	kit.Rec.Rule(rule)
+	rapid.Check(t, func(t *rapid.T) {
+		isInt := rapid.Bool().Draw(t, "isint")
+		cons := rapid.SampledFrom([]string{"required", "min=1", "omitempty min=3", "omitempty", "eq=5", "max=3"}).Draw(t, "cons")
+		bound := rapid.Bool().Draw(t, "bound")
+		via := rapid.SampledFrom([]string{"value", "prop", "prefix"}).Draw(t, "via")
+		var typ reflect.Type
+		var val any
+		cfg := "c18:\n  pad: 1\n"
+		if isInt {
+			typ = reflect.TypeOf((*int64)(nil))
+			if bound {
+				x := int64(rapid.IntRange(0, 6).Draw(t, "x"))
+				val, cfg = &x, fmt.Sprintf("c18:\n  v: %d\n", x)
+			} else {
+				val = (*int64)(nil)
+			}
+		} else {
+			typ = reflect.TypeOf((*string)(nil))
+			if bound {
+				x := rapid.SampledFrom([]string{"ab", "abcd", "5"}).Draw(t, "s")
+				val, cfg = &x, fmt.Sprintf("c18:\n  v: %q\n", x)
+			} else {
+				val = (*string)(nil)
+			}
+		}
+		tag := map[string]string{"value": "${c18.v}", "prop": "c18.v", "prefix": "c18.v"}[via] + ",required=false,validate=" + cons
+		obj := reflect.New(reflect.StructOf([]reflect.StructField{{Name: "F", Type: typ, Tag: reflect.StructTag(via + ":" + strconv.Quote(tag))}}))
+		out := kit.RunApp(app.SetComponents(obj.Interface()), app.SetConfigLoader(loader.NewRawLoader([]byte(cfg))))
+		desc := fmt.Sprintf("%s:%q (%s) bound=%v cfg=%q", via, tag, typ, bound, cfg)
+		if out.Panic != nil {
+			t.Fatalf("C18: panic %v\n%s", out.Panic, desc)
+		}
+		// the library is the reference here (nil pointers are its corner case, not re-implemented)
+		libErr := vld.Var(val, strings.ReplaceAll(cons, " ", ","))
+		if (out.Err != nil) != (libErr != nil) {
+			t.Fatalf("C18: the bound value is %v; the constraints %q are violated=%v, but start-up %s\n%s", fmtPtr(val), cons, libErr != nil, map[bool]string{true: "failed: " + out.String(), false: "succeeded"}[out.Err != nil], desc)
+		}
+		kit.Rec.Case(desc, !bound, "pointer-validation")
+	})
+}
+
+func fmtPtr(v any) string {
+	rv := reflect.ValueOf(v)
+	if rv.IsNil() {
+		return "<nil pointer>"
+	}
+	return fmt.Sprint(rv.Elem().Interface())
 }
